@@ -297,6 +297,8 @@ func Gen(r *rand.Rand, p Profile) *Workload {
 		wl.Ops = append(wl.Ops, UserOp{At: at, Name: "create job " + ns + "/" + name, Do: func(w *World) {
 			if _, err := w.User.Furiko().ExecutionV1alpha1().Jobs(obj.Namespace).Create(context.Background(), obj, metav1.CreateOptions{}); err != nil {
 				w.Mon.Notes = append(w.Mon.Notes, "job create refused: "+err.Error())
+			} else if sp := obj.Spec.StartPolicy; sp != nil && sp.StartAfter != nil {
+				w.Mon.NoteStartAfter(obj.Namespace, obj.Name, sp.StartAfter.Time)
 			}
 		}})
 		if startAfter >= 0 && r.Intn(100) < p.EditStartAfter {
@@ -307,7 +309,9 @@ func Gen(r *rand.Rand, p Profile) *Workload {
 				if cur, err := jobs.Get(context.Background(), obj.Name, metav1.GetOptions{}); err == nil && cur.Status.StartTime.IsZero() && cur.Spec.StartPolicy != nil && cur.Spec.StartPolicy.StartAfter != nil {
 					sa := metav1.NewTime(cur.Spec.StartPolicy.StartAfter.Add(by))
 					cur.Spec.StartPolicy.StartAfter = &sa
-					_, _ = jobs.Update(context.Background(), cur, metav1.UpdateOptions{})
+					if _, err := jobs.Update(context.Background(), cur, metav1.UpdateOptions{}); err == nil {
+						w.Mon.NoteStartAfter(obj.Namespace, obj.Name, sa.Time)
+					}
 				}
 			}})
 		}
